@@ -284,18 +284,28 @@ fn run_cfg_case(kind: &str, v: u64) -> (String, String) {
                 Ok(n) => broken(format!("{} results for a ping after the announcement", n)),
             }
         }
-        "payload_len_ser" | "payload_len_ser_cs128" | "payload_len_ser_cs2p24" | "payload_len_ser_csmax" => {
-            let cs: u32 = match kind { "payload_len_ser_cs128" => 128, "payload_len_ser_cs2p24" => 0x100_0000, "payload_len_ser_csmax" => 0x7FFF_FFFF, _ => 65_536 };
+        "payload_len_ser" | "payload_len_ser_cs128" | "payload_len_ser_cs2p24" | "payload_len_ser_csmax" | "payload_len_ser_cs12m" => {
+            let cs: u32 = match kind { "payload_len_ser_cs128" => 128, "payload_len_ser_cs2p24" => 0x100_0000, "payload_len_ser_csmax" => 0x7FFF_FFFF, "payload_len_ser_cs12m" => 12_000_000, _ => 65_536 };
             let mut ser = ChunkSerializer::new();
             let _ = ser.set_max_chunk_size(cs, RtmpTimestamp::new(0));
-            let m = MessagePayload { timestamp: RtmpTimestamp::new(0), type_id: 9, message_stream_id: 1, data: Bytes::from(vec![7u8; v as usize]) };
+            let body = pattern(77, v as usize);
+            let m = MessagePayload { timestamp: RtmpTimestamp::new(0), type_id: 9, message_stream_id: 1, data: Bytes::from(body.clone()) };
             match ser.serialize(&m, false, false) {
                 Err(e) => refused(format!("{:?}", e)),
                 Ok(p) => {
                     let mut de = ChunkDeserializer::new();
                     de.set_max_chunk_size(cs as usize).unwrap();
                     match de.get_next_message(&p.bytes) {
-                        Ok(Some(g)) if g.data.len() == v as usize => ok("round trip"),
+                        Ok(Some(g)) if g.data[..] == body[..] => {
+                            // and a small message behind it still decodes (nothing was left over or swallowed)
+                            let m2 = MessagePayload { timestamp: RtmpTimestamp::new(5), type_id: 8, message_stream_id: 1, data: Bytes::from(vec![1u8, 2, 3]) };
+                            let p2 = match ser.serialize(&m2, false, false) { Ok(p) => p, Err(e) => return broken(format!("second message refused: {:?}", e)) };
+                            match de.get_next_message(&p2.bytes) {
+                                Ok(Some(g2)) if g2.data[..] == [1u8, 2, 3] && g2.type_id == 8 => ok("round trip"),
+                                other => broken(format!("a message sent after the {}-byte one: {:?}", v, other.map(|o| o.map(|p| (p.type_id, p.data.len()))).map_err(|e| format!("{:?}", e)))),
+                            }
+                        }
+                        Ok(Some(g)) => broken(format!("{} bytes came back as {} bytes with different content", v, g.data.len())),
                         other => broken(format!("{:?}", other.map(|o| o.map(|p| p.data.len())).map_err(|e| format!("{:?}", e)))),
                     }
                 }
@@ -408,6 +418,11 @@ pub fn run(run: &Run) {
             if v >= 14 {
                 cases.push((format!("{}_utf8", k), v));
             }
+        }
+    }
+    for &v in &[8_388_607u64, 8_388_608, 8_388_609, 9_000_000] {
+        for k in ["payload_len_ser_cs2p24", "payload_len_ser_csmax", "payload_len_ser_cs12m"] {
+            cases.push((k.to_string(), v));
         }
     }
     for &v in &[0u64, 16_777_215, 16_777_216] {
